@@ -162,7 +162,7 @@ def load_hd(enc=None, transform=None):
 def build_space(spec, between=None):
     """spec: dict(dim, p, n, history=[{level: [cells]}...], truncate, disparity, bdspecs)"""
     from pyiga import bspline, hierarchical
-    kvs = tuple(bspline.make_knots(spec['p'], 0.0, 1.0, spec['n']) for _ in range(spec['dim']))
+    kvs = tuple(bspline.make_knots(spec['p'], 0.0, 1.0, spec['n'], mult=spec.get('mult', 1)) for _ in range(spec['dim']))
     disp = np.inf if spec['disparity'] in (None, 'inf') else spec['disparity']
     kw = {} if spec['bdspecs'] == 'default' else {'bdspecs': spec['bdspecs']}
     hs = hierarchical.HSpace(kvs, truncate=spec['truncate'], disparity=disp, **kw)
@@ -200,8 +200,8 @@ def enumerate_histories(dim, n, maxcalls, rng, limit):
 def space_list(thorough, seed):
     rng = random.Random(1234 + seed)
     specs = []
-    def add(dim, p, n, hist, trunc, disp, bd, interleave=False, tadm=False):
-        specs.append({'dim': dim, 'p': p, 'n': n, 'history': hist, 'truncate': trunc, 'disparity': disp, 'bdspecs': bd, 'interleave': interleave, **({'tadm': True} if tadm else {})})
+    def add(dim, p, n, hist, trunc, disp, bd, interleave=False, tadm=False, mult=1):
+        specs.append({'dim': dim, 'p': p, 'n': n, 'history': hist, 'truncate': trunc, 'disparity': disp, 'bdspecs': bd, 'interleave': interleave, **({'tadm': True} if tadm else {}), **({'mult': mult} if mult != 1 else {})})
     # fixed family: the shapes named in the property (corner / nested / isolated cell / multi-level simultaneous marks / level-skipping interaction)
     fixed = [
         (1, 2, 3, [{0: [[0]]}]), (1, 2, 3, [{0: [[1]]}]), (1, 1, 3, [{0: [[0], [2]]}]), (1, 2, 4, [{0: [[0], [1]]}, {1: [[0], [1]]}]),
@@ -225,6 +225,11 @@ def space_list(thorough, seed):
         add(1, 2, 4, [{0: [[0]]}, {1: [[0]]}, {2: [[0]]}], trunc, 1, [], tadm=True)
         add(2, 1, 3, [{0: [[0, 0]]}, {1: [[0, 0]]}, {2: [[0, 0]]}], trunc, 1, [], tadm=True)
     add(1, 3, 5, [{0: [[0]]}, {1: [[0]]}, {2: [[0]]}, {3: [[0]]}], True, 2, [], tadm=True)
+    # repeated interior knots (reduced smoothness): more functions per cell than p+1 consecutive cell indices suggest
+    for trunc in (False, True):
+        add(1, 2, 3, [{0: [[1]]}], trunc, 'inf', [], mult=2)
+        add(1, 3, 4, [{0: [[1], [2]]}, {1: [[3], [4]]}], trunc, 'inf', [], mult=2)
+    add(2, 2, 2, [{0: [[1, 1]]}], False, 'inf', [], mult=2)
     # assemble - refine - assemble on the same object (caches must follow the refinement)
     add(1, 2, 4, [{0: [[0], [1]]}, {1: [[0], [1]]}, {0: [[3]]}], False, 'inf', [], interleave=True)
     add(2, 1, 3, [{0: [[0, 0], [0, 1], [1, 0], [1, 1]]}, {1: [[0, 0], [0, 1], [1, 0], [1, 1]]}, {1: [[2, 2]]}], False, 'inf', [], interleave=True)
@@ -457,7 +462,7 @@ w = json.load(sys.stdin)
 from pyiga import bspline, hierarchical, assemble, vform, geometry
 spec = w['spec']
 def build(between=None):
-    kvs = tuple(bspline.make_knots(spec['p'], 0.0, 1.0, spec['n']) for _ in range(spec['dim']))
+    kvs = tuple(bspline.make_knots(spec['p'], 0.0, 1.0, spec['n'], mult=spec.get('mult', 1)) for _ in range(spec['dim']))
     disp = np.inf if spec['disparity'] in (None, 'inf') else spec['disparity']
     kw = {} if spec['bdspecs'] == 'default' else {'bdspecs': [tuple(b) for b in spec['bdspecs']]}
     hs = hierarchical.HSpace(kvs, truncate=spec['truncate'], disparity=disp, **kw)
@@ -479,6 +484,11 @@ try:
         for symmetric in (False, True):
             A = assemble.assemble(mk(), hs, geo=geo, symmetric=symmetric).toarray()
             if A.shape != ref.shape or not np.allclose(A, ref, rtol=1e-9, atol=1e-11): bad.append('%s symmetric=%s: max deviation %.3g' % (name, symmetric, np.abs(A - ref).max() if A.shape == ref.shape else -1))
+    # a non-symmetric form (convection): general assembly only
+    conv = 'inner(grad(u), (1.0, 2.0)) * v * dx' if spec['dim'] == 2 else 'u.dx(0) * v * dx'
+    Af = assemble.assemble(conv, kvf, geo=geo)
+    A = assemble.assemble(conv, hs, geo=geo).toarray(); ref = (I.T @ Af @ I).toarray()
+    if A.shape != ref.shape or not np.allclose(A, ref, rtol=1e-9, atol=1e-11): bad.append('convection (non-symmetric form): max deviation %.3g' % (np.abs(A - ref).max() if A.shape == ref.shape else -1))
     f = lambda *x: 1.0 + x[0]
     bf = assemble.assemble(vform.L2functional_vf(spec['dim'], physical=True), kvf, geo=geo, f=f).ravel()
     b = assemble.assemble(vform.L2functional_vf(spec['dim'], physical=True), hs, geo=geo, f=f)
